@@ -1,59 +1,372 @@
 /-
 C15 — bridge tax and transfer limits are applied exactly as configured.
-Same model as C01 (`Model/Bridge.lean`): `send`, `cancel`, `execBatch`, `taxOf`, `limitStep`.
+Same model as C01 (`Model/Bridge.lean`): `send`, `cancel`, `execBatch`, `taxOf`, `limitStep`, `setTax`.
+
+Window definition used by the limit clause (stated explicitly, see `window_total_le_limit`): the limit
+windows of a token are the height intervals `[u.start, u.start + period)` where `u` ranges over the usage
+records the chain stores for the token (`BridgeTransferUsage`, executable state that the harness compares
+with the implementation).  A window is opened by the first accepted limited send after the previous
+window ran out; windows are *anchored*, not sliding (`sliding_window_reading_is_false`).
 -/
 import PalomaModel.Props.C01
 
 namespace Paloma.Bridge
 open List
 
+/-- is the op a change of the transfer-limit setting of `tok`? -/
+def isSetLimit (tok : Nat) : Op → Bool
+  | .setLimit t _ => t == tok
+  | _ => false
+
+/-- the accepted send of `tok` by a sender subject to the limit `l` that `op` is, if it is one:
+    `(height, amount)` -/
+def limEvents (tok : Nat) (l : LimitCfg) (s : St) : Op → List (Nat × Nat)
+  | .send f u t amt h => if t = tok ∧ u ∉ l.exempt ∧ (send s f u t amt h).2.2 = .ok then [(h, amt)] else []
+  | _ => []
+
+/-- the accepted sends of `tok` by non-exempt senders in the segment `w` replayed from `s`, oldest
+    first, each with its block height — a function of the history and the results the ops reported -/
+def limitedSends (tok : Nat) (l : LimitCfg) : St → List Op → List (Nat × Nat)
+  | _, [] => []
+  | s, op :: rest => limEvents tok l s op ++ limitedSends tok l (apply s op) rest
+
+/-- block heights of the send ops on `tok`, oldest first -/
+def sendHeights (tok : Nat) : List Op → List Nat
+  | [] => []
+  | .send _ _ t _ h :: rest => if t = tok then h :: sendHeights tok rest else sendHeights tok rest
+  | _ :: rest => sendHeights tok rest
+
+/-- total of the logged amounts with height in `[a, a + p)` -/
+def sumIn (a p : Nat) (L : List (Nat × Nat)) : Nat :=
+  ((L.filter (fun e => decide (a ≤ e.1) && decide (e.1 < a + p))).map (·.2)).sum
+
+/-- total of the logged amounts with height `≥ a` -/
+def sumFrom (a : Nat) (L : List (Nat × Nat)) : Nat := ((L.filter (fun e => decide (a ≤ e.1))).map (·.2)).sum
+
 /-! ## helper lemmas -/
 section Lemmas
 
-theorem send_ok_shape (s : St) (f : Fault) (u tok amt h : Nat) (hok : (send s f u tok amt h).2.2 = .ok) :
-    ∃ usage', limitStep (s.limit tok) (s.usage tok) u amt h = some usage' ∧
-      taxOverflows (s.tax tok) u amt = false ∧ amt ≠ 0 ∧
-      amt + taxOf (s.tax tok) u amt ≤ s.bal u tok ∧
-      (send s f u tok amt h).1 =
-        { s with pool := { id := s.lastTx + 1, sender := u, token := tok, amount := amt, tax := taxOf (s.tax tok) u amt } :: s.pool,
-                 bal := upd2 s.bal u tok (s.bal u tok - (amt + taxOf (s.tax tok) u amt)),
-                 escrow := upd s.escrow tok (s.escrow tok + (amt + taxOf (s.tax tok) u amt)),
-                 lastTx := s.lastTx + 1,
-                 usage := updO s.usage tok usage',
-                 accepted := { id := s.lastTx + 1, sender := u, token := tok, amount := amt, tax := taxOf (s.tax tok) u amt } :: s.accepted,
-                 winLog := if limitApplies (s.limit tok) u then
-                          (fun x => if x = tok then
-                              (if rollsOver (s.limit tok) (s.usage tok) h then [amt] else amt :: s.winLog tok)
-                            else s.winLog x)
-                        else s.winLog } := by
-  unfold send at hok ⊢
-  split at hok
-  · simp at hok
-  · rename_i usage' hl
-    split at hok
-    · simp at hok
-    · rename_i hov
-      simp only at hok ⊢
-      split at hok
-      · simp at hok
-      · split at hok
-        · simp at hok
-        · split at hok
-          · simp at hok
-          · split at hok
-            · simp at hok
-            · split at hok
-              · simp at hok
-              · rename_i h1 h2 h3 h4 h5
-                refine ⟨usage', ?_, by simpa using hov, h3, by omega, ?_⟩
-                · simp [hl]
-                · simp [hl, hov, h1, h2, h3, h4, h5]
+theorem sumIn_nil (a p : Nat) : sumIn a p [] = 0 := rfl
+theorem sumFrom_nil (a : Nat) : sumFrom a [] = 0 := rfl
+
+theorem sumIn_cons (a p : Nat) (e : Nat × Nat) (L : List (Nat × Nat)) :
+    sumIn a p (e :: L) = (if a ≤ e.1 ∧ e.1 < a + p then e.2 else 0) + sumIn a p L := by
+  unfold sumIn
+  by_cases h : a ≤ e.1 ∧ e.1 < a + p
+  · simp [List.filter_cons, h.1, h.2]
+  · have : (decide (a ≤ e.1) && decide (e.1 < a + p)) = false := by
+      simp only [Bool.and_eq_false_iff, decide_eq_false_iff_not]
+      by_cases h1 : a ≤ e.1
+      · right; exact fun h2 => h ⟨h1, h2⟩
+      · left; exact h1
+    simp [List.filter_cons, this, h]
+
+theorem sumFrom_cons (a : Nat) (e : Nat × Nat) (L : List (Nat × Nat)) :
+    sumFrom a (e :: L) = (if a ≤ e.1 then e.2 else 0) + sumFrom a L := by
+  unfold sumFrom
+  by_cases h : a ≤ e.1 <;> simp [List.filter_cons, h]
+
+theorem sumIn_append (a p : Nat) (L₁ L₂ : List (Nat × Nat)) : sumIn a p (L₁ ++ L₂) = sumIn a p L₁ + sumIn a p L₂ := by
+  unfold sumIn; simp [List.filter_append, List.map_append, List.sum_append]
+
+theorem sumFrom_append (a : Nat) (L₁ L₂ : List (Nat × Nat)) : sumFrom a (L₁ ++ L₂) = sumFrom a L₁ + sumFrom a L₂ := by
+  unfold sumFrom; simp [List.filter_append, List.map_append, List.sum_append]
+
+theorem sumIn_eq_sumFrom (a p : Nat) (L : List (Nat × Nat)) (h : ∀ e ∈ L, e.1 < a + p) : sumIn a p L = sumFrom a L := by
+  induction L with
+  | nil => rfl
+  | cons e L ih =>
+    rw [sumIn_cons, sumFrom_cons, ih (fun x hx => h x (List.mem_cons_of_mem _ hx))]
+    have := h e List.mem_cons_self
+    by_cases h1 : a ≤ e.1 <;> simp [h1, this]
+
+theorem sumIn_zero_of_ge (a p b : Nat) (L : List (Nat × Nat)) (hb : a + p ≤ b) (h : ∀ e ∈ L, b ≤ e.1) : sumIn a p L = 0 := by
+  induction L with
+  | nil => rfl
+  | cons e L ih =>
+    rw [sumIn_cons, ih (fun x hx => h x (List.mem_cons_of_mem _ hx))]
+    have := h e List.mem_cons_self
+    have : ¬ (a ≤ e.1 ∧ e.1 < a + p) := by omega
+    simp [this]
+
+theorem sumFrom_zero_of_lt (a : Nat) (L : List (Nat × Nat)) (h : ∀ e ∈ L, e.1 < a) : sumFrom a L = 0 := by
+  induction L with
+  | nil => rfl
+  | cons e L ih =>
+    rw [sumFrom_cons, ih (fun x hx => h x (List.mem_cons_of_mem _ hx))]
+    have := h e List.mem_cons_self
+    have : ¬ a ≤ e.1 := by omega
+    simp [this]
+
+/-- `limitStep` under an active limit for a non-exempt sender: the persisted usage is within the limit,
+    and it either extends the running window or opens a new one at `h` — the latter exactly when there
+    was no usage on record or the running window had run out -/
+theorem limit_step_spec (l : LimitCfg) (usage : Option Usage) (sender amt h : Nat) (u' : Option Usage)
+    (hne : sender ∉ l.exempt) (hp : l.period ≠ 0)
+    (hstep : limitStep (some l) usage sender amt h = some u') :
+    ∃ nu, u' = some nu ∧ nu.total ≤ l.limit ∧
+      ((∃ u, usage = some u ∧ h - u.start < l.period ∧ nu.start = u.start ∧ nu.total = u.total + amt) ∨
+       (nu.start = h ∧ nu.total = amt ∧ ∀ u, usage = some u → h - u.start ≥ l.period)) := by
+  simp only [limitStep] at hstep
+  have h1 : l.exempt.contains sender = false := by simpa using hne
+  have h2 : (l.period == 0) = false := by simpa using hp
+  simp only [h1, h2, Bool.false_eq_true, if_false] at hstep
+  cases usage with
+  | none =>
+    simp only at hstep
+    by_cases hgt : amt > l.limit
+    · simp [hgt] at hstep
+    · simp only [hgt, if_false, Option.some.injEq] at hstep
+      exact ⟨_, hstep.symm, by simp; omega, Or.inr ⟨rfl, rfl, by intro u hu; cases hu⟩⟩
+  | some u =>
+    simp only at hstep
+    by_cases hr : h - u.start ≥ l.period
+    · simp only [hr, if_true] at hstep
+      by_cases hgt : amt > l.limit
+      · simp [hgt] at hstep
+      · simp only [hgt, if_false, Option.some.injEq] at hstep
+        exact ⟨_, hstep.symm, by simp; omega, Or.inr ⟨rfl, rfl, by intro u0 hu; cases hu; exact hr⟩⟩
+    · simp only [hr, if_false] at hstep
+      by_cases hgt : u.total + amt > l.limit
+      · simp [hgt] at hstep
+      · simp only [hgt, if_false, Option.some.injEq] at hstep
+        exact ⟨_, hstep.symm, by simp; omega, Or.inl ⟨u, rfl, by omega, rfl, rfl⟩⟩
+
+theorem limitStep_unrestricted (lim : Option LimitCfg) (usage : Option Usage) (sender amt h : Nat)
+    (hfree : limitApplies lim sender = false) : limitStep lim usage sender amt h = some usage := by
+  cases lim with
+  | none => rfl
+  | some l =>
+    unfold limitStep
+    simp only
+    split
+    · rfl
+    · rename_i hex
+      split
+      · rfl
+      · rename_i hp
+        exfalso
+        have h1 : l.exempt.contains sender = false := by simpa using hex
+        have h2 : (l.period != 0) = true := by simpa using hp
+        have h3 : sender ∉ l.exempt := by simpa using h1
+        simp [limitApplies, h2] at hfree
+        exact h3 hfree
+
+theorem frame_usage : InnerRel (fun s s' => s'.usage = s.usage) :=
+  InnerRel.ofFrame (·.usage) (fun _ _ _ => rfl) (fun _ _ => rfl) (fun _ _ _ _ => rfl) (fun _ _ => rfl)
+    (fun _ _ _ _ => rfl) (fun _ _ => rfl) (fun _ _ => rfl)
+
+theorem frame_limit_inner : InnerRel (fun s s' => s'.limit = s.limit) :=
+  InnerRel.ofFrame (·.limit) (fun _ _ _ => rfl) (fun _ _ => rfl) (fun _ _ _ _ => rfl) (fun _ _ => rfl)
+    (fun _ _ _ _ => rfl) (fun _ _ => rfl) (fun _ _ => rfl)
+
+theorem updO_same {α : Type} (f : Nat → Option α) (k : Nat) (v : Option α) : updO f k v k = v := by simp [updO]
+theorem updO_other {α : Type} (f : Nat → Option α) (k : Nat) (v : Option α) (x : Nat) (h : x ≠ k) :
+    updO f k v x = f x := by simp [updO, h]
+
+/-- one op of a segment with a constant, active limit `l` on `tok`: the limit stays, and either the op
+    is not an accepted limited send of `tok` and the usage record is untouched, or it is one and the
+    usage record moves as `limit_step_spec` says -/
+theorem apply_lim (s : St) (op : Op) (tok : Nat) (l : LimitCfg) (hl : s.limit tok = some l) (hp : l.period ≠ 0)
+    (hop : isSetLimit tok op = false) :
+    (apply s op).limit tok = some l ∧
+    ((limEvents tok l s op = [] ∧ (apply s op).usage tok = s.usage tok) ∨
+     (∃ h amt nu, limEvents tok l s op = [(h, amt)] ∧ (apply s op).usage tok = some nu ∧ nu.total ≤ l.limit ∧
+        ((∃ u0, s.usage tok = some u0 ∧ h - u0.start < l.period ∧ nu.start = u0.start ∧ nu.total = u0.total + amt) ∨
+         (nu.start = h ∧ nu.total = amt ∧ ∀ u0, s.usage tok = some u0 → h - u0.start ≥ l.period)))) := by
+  cases op with
+  | send f u t amt h =>
+    rcases send_cases s f u t amt h with ⟨hr, h1⟩ | ⟨hr, usage', hstep, _, _, _, _, h1⟩
+    · refine ⟨(by simp only [apply, h1]; exact hl), Or.inl ⟨?_, (by simp only [apply, h1])⟩⟩
+      simp [limEvents, hr]
+    · have hlim : (apply s (.send f u t amt h)).limit tok = some l := by simp only [apply, h1]; exact hl
+      refine ⟨hlim, ?_⟩
+      by_cases ht : t = tok
+      · subst ht
+        by_cases hex : u ∈ l.exempt
+        · left
+          have hfree : limitApplies (s.limit t) u = false := by simp [limitApplies, hl, hex]
+          rw [limitStep_unrestricted _ _ _ _ _ hfree] at hstep
+          injection hstep with hstep
+          refine ⟨by simp [limEvents, hex], ?_⟩
+          simp only [apply, h1, sendOk, updO_same]; exact hstep.symm
+        · right
+          rw [hl] at hstep
+          obtain ⟨nu, hnu, hle, hcase⟩ := limit_step_spec l (s.usage t) u amt h usage' hex hp hstep
+          refine ⟨h, amt, nu, by simp [limEvents, hex, hr], ?_, hle, hcase⟩
+          simp only [apply, h1, sendOk, updO_same]; exact hnu
+      · left
+        refine ⟨by simp [limEvents, ht], ?_⟩
+        simp only [apply, h1, sendOk]
+        exact updO_other _ _ _ _ (fun e => ht e.symm)
+  | cancel f u id =>
+    have h1 : (apply s (.cancel f u id)).limit = s.limit ∧ (apply s (.cancel f u id)).usage = s.usage := by
+      show (cancel s f u id).1.limit = s.limit ∧ (cancel s f u id).1.usage = s.usage
+      rcases cancel_cases s f u id with ⟨_, h1⟩ | ⟨_, t, _, _, h1⟩ <;> rw [h1] <;> exact ⟨rfl, rfl⟩
+    exact ⟨(by rw [h1.1]; exact hl), Or.inl ⟨rfl, (by rw [h1.2])⟩⟩
+  | build f t time =>
+    exact ⟨(by rw [show (apply s (.build f t time)).limit = s.limit from frame_limit_inner.build s f t time]; exact hl),
+      Or.inl ⟨rfl, (by rw [show (apply s (.build f t time)).usage = s.usage from frame_usage.build s f t time])⟩⟩
+  | fund u t amt => exact ⟨hl, Or.inl ⟨rfl, rfl⟩⟩
+  | setTax t c =>
+    exact ⟨(by rw [show (apply s (.setTax t c)).limit = s.limit from (setTax_other s t c).2.2.2.2.2.2.1]; exact hl),
+      Or.inl ⟨rfl, (by rw [show (apply s (.setTax t c)).usage = s.usage from (setTax_other s t c).2.2.2.2.2.1])⟩⟩
+  | setLimit t c =>
+    have ht : tok ≠ t := by
+      intro e; simp [isSetLimit, e] at hop
+    exact ⟨(by simp only [apply, setLimit]; rw [updO_other _ _ _ _ ht]; exact hl), Or.inl ⟨rfl, rfl⟩⟩
+  | claim n c =>
+    exact ⟨(by rw [show (apply s (.claim n c)).limit = s.limit from (addClaim_other s n c).2.2.2.2.2.2.1]; exact hl),
+      Or.inl ⟨rfl, (by rw [show (apply s (.claim n c)).usage = s.usage from (addClaim_other s n c).2.2.2.2.2.1])⟩⟩
+  | endBlock f h now toks ests =>
+    exact ⟨(by rw [show (apply s (.endBlock f h now toks ests)).limit = s.limit from
+                frame_limit_inner.endBlock s f h now toks ests]; exact hl),
+      Or.inl ⟨rfl, (by rw [show (apply s (.endBlock f h now toks ests)).usage = s.usage from
+                frame_usage.endBlock s f h now toks ests])⟩⟩
+
+/-- what the segment replayed so far says about the usage record -/
+structure WinInv (tok : Nat) (l : LimitCfg) (s : St) (L : List (Nat × Nat)) : Prop where
+  /-- the logged amounts of the running window are within the stored total -/
+  cur : ∀ u, s.usage tok = some u → sumFrom u.start L ≤ u.total
+  /-- every logged height is before the end of the running window -/
+  below : ∀ u, s.usage tok = some u → ∀ e ∈ L, e.1 < u.start + l.period
+  /-- once a limited send was accepted there is a usage record, within the limit -/
+  some : L ≠ [] → ∃ u, s.usage tok = some u ∧ u.total ≤ l.limit
+
+theorem winInv_step (s : St) (op : Op) (tok : Nat) (l : LimitCfg) (L : List (Nat × Nat))
+    (hl : s.limit tok = some l) (hp : l.period ≠ 0) (hop : isSetLimit tok op = false) (hk : WinInv tok l s L) :
+    WinInv tok l (apply s op) (L ++ limEvents tok l s op) := by
+  rcases (apply_lim s op tok l hl hp hop).2 with ⟨hev, hus⟩ | ⟨h, amt, nu, hev, hus, hle, hcase⟩
+  · rw [hev, List.append_nil]
+    exact ⟨by rw [hus]; exact hk.cur, by rw [hus]; exact hk.below, by rw [hus]; exact hk.some⟩
+  · rw [hev]
+    rcases hcase with ⟨u0, hu0, hlt, hst, htot⟩ | ⟨hst, htot, hroll⟩
+    · -- the running window is extended
+      refine ⟨?_, ?_, ?_⟩
+      · intro u hu
+        rw [hus] at hu; injection hu with hu; subst hu
+        rw [sumFrom_append, sumFrom_cons, sumFrom_nil, hst, htot]
+        have := hk.cur u0 hu0
+        split <;> omega
+      · intro u hu e he
+        rw [hus] at hu; injection hu with hu; subst hu
+        rw [hst]
+        rcases List.mem_append.mp he with he | he
+        · exact hk.below u0 hu0 e he
+        · simp only [List.mem_singleton] at he; subst he; simp only; omega
+      · intro _; exact ⟨nu, hus, hle⟩
+    · -- a new window is opened at `h`
+      have hold : ∀ e ∈ L, e.1 < h := by
+        intro e he
+        obtain ⟨u0, hu0, _⟩ := hk.some (List.ne_nil_of_mem he)
+        have := hk.below u0 hu0 e he
+        have := hroll u0 hu0
+        omega
+      refine ⟨?_, ?_, ?_⟩
+      · intro u hu
+        rw [hus] at hu; injection hu with hu; subst hu
+        rw [sumFrom_append, sumFrom_cons, sumFrom_nil, hst, sumFrom_zero_of_lt h L hold, htot]
+        simp
+      · intro u hu e he
+        rw [hus] at hu; injection hu with hu; subst hu
+        rw [hst]
+        rcases List.mem_append.mp he with he | he
+        · have := hold e he; omega
+        · simp only [List.mem_singleton] at he; subst he; simp only; omega
+      · intro _; exact ⟨nu, hus, hle⟩
+
+theorem winInv_foldl (tok : Nat) (l : LimitCfg) (hp : l.period ≠ 0) (w : List Op) :
+    ∀ (s : St) (L : List (Nat × Nat)), s.limit tok = some l → (∀ op ∈ w, isSetLimit tok op = false) →
+      WinInv tok l s L →
+      WinInv tok l (w.foldl apply s) (L ++ limitedSends tok l s w) ∧ (w.foldl apply s).limit tok = some l := by
+  induction w with
+  | nil => intro s L hl _ hk; simpa [limitedSends] using ⟨hk, hl⟩
+  | cons op rest ih =>
+    intro s L hl hops hk
+    have hop := hops op List.mem_cons_self
+    have h1 := winInv_step s op tok l L hl hp hop hk
+    have h2 := (apply_lim s op tok l hl hp hop).1
+    have := ih (apply s op) (L ++ limEvents tok l s op) h2 (fun o ho => hops o (List.mem_cons_of_mem _ ho)) h1
+    simpa [limitedSends, List.append_assoc] using this
+
+theorem limEvents_heights (tok : Nat) (l : LimitCfg) (s : St) (op : Op) :
+    ∀ e ∈ limEvents tok l s op, e.1 ∈ sendHeights tok [op] := by
+  intro e he
+  cases op with
+  | send f u t amt h =>
+    simp only [limEvents] at he
+    split at he
+    · rename_i hc
+      simp only [List.mem_singleton] at he
+      subst he
+      simp [sendHeights, hc.1]
+    · cases he
+  | _ => simp [limEvents] at he
+
+theorem sendHeights_cons (tok : Nat) (op : Op) (rest : List Op) :
+    sendHeights tok (op :: rest) = sendHeights tok [op] ++ sendHeights tok rest := by
+  cases op with
+  | send f u t amt h => simp only [sendHeights]; split <;> simp
+  | _ => simp [sendHeights]
+
+theorem limitedSends_heights (tok : Nat) (l : LimitCfg) (w : List Op) :
+    ∀ (s : St), ∀ e ∈ limitedSends tok l s w, e.1 ∈ sendHeights tok w := by
+  induction w with
+  | nil => intro s e he; simp [limitedSends] at he
+  | cons op rest ih =>
+    intro s e he
+    simp only [limitedSends, List.mem_append] at he
+    rw [sendHeights_cons, List.mem_append]
+    rcases he with he | he
+    · exact Or.inl (limEvents_heights tok l s op e he)
+    · exact Or.inr (ih _ e he)
+
+/-- the future of a window: in a segment with monotone heights, the accepted limited sends that fall
+    into the running window `[u.start, u.start + period)` keep the stored total within the limit -/
+theorem window_future (tok : Nat) (l : LimitCfg) (hp : l.period ≠ 0) (w : List Op) :
+    ∀ (s : St) (u : Usage), s.limit tok = some l → s.usage tok = some u →
+      (∀ op ∈ w, isSetLimit tok op = false) → (sendHeights tok w).Pairwise (· ≤ ·) →
+      sumIn u.start l.period (limitedSends tok l s w) = 0 ∨
+      u.total + sumIn u.start l.period (limitedSends tok l s w) ≤ l.limit := by
+  induction w with
+  | nil => intro s u _ _ _ _; left; rfl
+  | cons op rest ih =>
+    intro s u hl hu hops hmono
+    have hop := hops op List.mem_cons_self
+    have hops' : ∀ o ∈ rest, isSetLimit tok o = false := fun o ho => hops o (List.mem_cons_of_mem _ ho)
+    rw [sendHeights_cons] at hmono
+    have hmono' : (sendHeights tok rest).Pairwise (· ≤ ·) := (List.pairwise_append.mp hmono).2.1
+    have hcross := (List.pairwise_append.mp hmono).2.2
+    obtain ⟨hl', hcase⟩ := apply_lim s op tok l hl hp hop
+    simp only [limitedSends, sumIn_append]
+    rcases hcase with ⟨hev, hus⟩ | ⟨h, amt, nu, hev, hus, hle, hc⟩
+    · rw [hev, sumIn_nil, Nat.zero_add]
+      exact ih (apply s op) u hl' (by rw [hus]; exact hu) hops' hmono'
+    · rw [hev, sumIn_cons, sumIn_nil]
+      have hh : h ∈ sendHeights tok [op] := limEvents_heights tok l s op (h, amt) (by rw [hev]; exact List.mem_singleton.mpr rfl)
+      rcases hc with ⟨u0, hu0, hlt, hst, htot⟩ | ⟨hst, htot, hroll⟩
+      · rw [hu] at hu0; injection hu0 with hu0; subst hu0
+        have hnu : nu = { start := u.start, total := u.total + amt } := by
+          cases nu; simp only at hst htot; simp [hst, htot]
+        have := ih (apply s op) nu hl' hus hops' hmono'
+        rw [hst, htot] at this
+        simp only
+        split <;> omega
+      · have hge := hroll u hu
+        have hb : u.start + l.period ≤ h := by omega
+        have hz : sumIn u.start l.period (limitedSends tok l (apply s op) rest) = 0 := by
+          apply sumIn_zero_of_ge u.start l.period h _ hb
+          intro e he
+          exact hcross h hh e.1 (limitedSends_heights tok l rest _ e he)
+        rw [hz]
+        have : ¬ (u.start ≤ h ∧ h < u.start + l.period) := by omega
+        simp [this]
 
 end Lemmas
 
 /-! ## Property theorems (C15) -/
 
-/-- **tax_spec.** The tax charged on amount `a` at rate `num/den` is `⌊a·num/den⌋` for a
+/-- **tax_spec.** The tax charged on amount `a` at rate `num/den` is `a·num/den` truncated for a
 non-exempt sender and `0` for an exempt sender, a zero rate or a token without a tax setting. -/
 theorem tax_spec (c : TaxCfg) (sender a : Nat) :
     (sender ∉ c.exempt → c.num ≠ 0 → taxOf (some c) sender a = a * c.num / c.den) ∧
@@ -71,169 +384,323 @@ theorem tax_spec (c : TaxCfg) (sender a : Nat) :
   · intro h1
     simp [taxOf, h1]
 
-/-- **cost_exact.** An accepted send debits the sender exactly `amount + tax`, credits the
-escrow with the same, and records that very tax with the transfer. -/
+/-- **tax_is_floor.** For a stored rate (`den > 0`, see `stored_tax_den_pos`) the tax of a non-exempt
+sender is the floor of `a · num/den`: the unique `t` with `t·den ≤ a·num < (t+1)·den`. -/
+theorem tax_is_floor (c : TaxCfg) (sender a : Nat) (hd : 0 < c.den) (hne : sender ∉ c.exempt) (hn : c.num ≠ 0) :
+    taxOf (some c) sender a * c.den ≤ a * c.num ∧ a * c.num < (taxOf (some c) sender a + 1) * c.den := by
+  rw [(tax_spec c sender a).1 hne hn]
+  constructor
+  · exact Nat.div_mul_le_self _ _
+  · rw [Nat.add_mul, Nat.one_mul]
+    exact Nat.lt_div_mul_add hd
+
+/-- **stored_tax_den_pos.** No reachable state stores a tax rate with denominator 0 (`SetBridgeTax`
+refuses a rate `big.Rat` cannot parse), so the truncated division above never divides by zero. -/
+theorem stored_tax_den_pos (ops : List Op) (tok : Nat) (c : TaxCfg) (h : (run ops).tax tok = some c) : 0 < c.den := by
+  have key : StepRel (Preserves (fun s => ∀ tok c, s.tax tok = some c → 0 < c.den)) := {
+    refl := fun _ h => h
+    trans := fun h1 h2 h => h2 (h1 h)
+    build := by intro s f tok time hp; rw [show (buildOne s f tok time).1.tax = s.tax from frame_tax.build s f tok time]; exact hp
+    cancelBatch := by
+      intro s f tok nonce hp
+      rw [show (cancelBatch s f tok nonce).1.tax = s.tax from frame_tax.cancelBatch s f tok nonce]; exact hp
+    setEstimate := by
+      intro s f tok nonce est hp
+      rw [show (setEstimate s f tok nonce est).1.tax = s.tax from frame_tax.setEstimate s f tok nonce est]; exact hp
+    observe := by
+      intro s f n c hn hc hp
+      rw [show (observe s f n c).1.tax = s.tax from frame_tax.observe s f n c hn hc]; exact hp
+    send := by
+      intro s f u tok amt h hp
+      rcases send_cases s f u tok amt h with ⟨_, h1⟩ | ⟨_, usage', _, _, _, _, _, h1⟩ <;> rw [h1] <;> exact hp
+    cancel := by
+      intro s f u id hp
+      rcases cancel_cases s f u id with ⟨_, h1⟩ | ⟨_, t, _, _, h1⟩ <;> rw [h1] <;> exact hp
+    fund := fun _ _ _ _ hp => hp
+    setTax := by
+      intro s tok c hp tok' c' h'
+      unfold setTax at h'
+      split at h'
+      · simp only [updO] at h'
+        split at h'
+        · cases h'
+        · exact hp tok' c' h'
+      · split at h'
+        · exact hp tok' c' h'
+        · rename_i cfg hden
+          simp only [updO] at h'
+          split at h'
+          · injection h' with h'; subst h'
+            have : cfg.den ≠ 0 := by simpa using hden
+            omega
+          · exact hp tok' c' h'
+    setLimit := fun _ _ _ hp => hp
+    addClaim := by intro s n c hp; rw [(addClaim_other s n c).2.2.2.2.2.2.2.1]; exact hp }
+  exact key.foldl ops St.init (by intro tok c h; simp [St.init] at h) tok c h
+
+/-- **cost_exact.** An accepted send debits the sender exactly `amount + tax` (`amount` for an exempt
+sender), credits the escrow with the same, changes nobody else's balance, and records that very tax with
+the transfer. -/
 theorem cost_exact (s : St) (f : Fault) (u tok amt h : Nat) (hok : (send s f u tok amt h).2.2 = .ok) :
     let s' := (send s f u tok amt h).1
     let tax := taxOf (s.tax tok) u amt
-    s'.bal u tok + (amt + tax) = s.bal u tok ∧
+    amt + tax ≤ s.bal u tok ∧
+    s'.bal = upd2 s.bal u tok (s.bal u tok - (amt + tax)) ∧
     s'.escrow tok = s.escrow tok + (amt + tax) ∧
-    (∃ t ∈ s'.pool, t.id = s.lastTx + 1 ∧ t.sender = u ∧ t.amount = amt ∧ t.tax = tax ∧ t.token = tok) := by
-  obtain ⟨usage', _, _, _, hbal, hs'⟩ := send_ok_shape s f u tok amt h hok
-  simp only [hs']
-  refine ⟨?_, ?_, ?_⟩
-  · simp [upd2]; omega
-  · simp [upd]
-  · exact ⟨_, List.mem_cons_self, rfl, rfl, rfl, rfl, rfl⟩
+    s'.pool = { id := s.lastTx + 1, sender := u, token := tok, amount := amt, tax := tax } :: s.pool := by
+  rcases send_cases s f u tok amt h with ⟨hr, _⟩ | ⟨_, usage', _, _, _, _, hbal, h1⟩
+  · rw [hr] at hok; cases hok
+  · simp only [h1]
+    refine ⟨hbal, rfl, ?_, rfl⟩
+    simp [sendOk, upd, newTx, Tx.owed]
 
-/-- **refund_in_full.** A successful cancel pays the recorded amount *and* tax back to the sender. -/
-theorem refund_in_full (s : St) (f : Fault) (u id : Nat) (hok : (cancel s f u id).2.2 = .ok) :
-    ∃ t ∈ s.pool, t.id = id ∧ t.sender = u ∧
-      (cancel s f u id).1.bal u t.token = s.bal u t.token + (t.amount + t.tax) := by
-  unfold cancel at hok ⊢
-  by_cases h0 : id < 1
-  · simp [h0] at hok
-  · simp only [h0, if_false] at hok ⊢
-    cases hfind : findTx s.pool id with
-    | none => simp [hfind] at hok
-    | some t =>
-      have ⟨hm, hid⟩ := findTx_some hfind
-      simp only [hfind] at hok ⊢
-      by_cases hs : (t.sender != u) = true
-      · simp [hs] at hok
-      · simp only [hs, if_false] at hok ⊢
-        by_cases h1 : (f.tick tSend).2 = true
-        · simp [h1] at hok
-        · simp only [h1, if_false] at hok ⊢
-          by_cases h2 : ((f.tick tSend).1.tick tChainInfo).2 = true
-          · simp [h2] at hok
-          · simp only [h2, if_false]
-            refine ⟨t, hm, hid, by simpa using hs, ?_⟩
-            simp [upd2, Tx.owed]
+/-- **send_overflow.** (amounts up to 2^256) An accepted send never overflowed `sdkmath.Int`: the product
+`amount · num` of the tax computation and the sum `amount + tax` are below `2^256`; a send that would
+overflow is rejected and changes nothing. -/
+theorem send_overflow (s : St) (f : Fault) (u tok amt h : Nat) :
+    ((send s f u tok amt h).2.2 = .ok → taxOverflows (s.tax tok) u amt = false ∧ amt + taxOf (s.tax tok) u amt < 2 ^ 256) ∧
+    ((taxOverflows (s.tax tok) u amt = true ∨ amt + taxOf (s.tax tok) u amt ≥ 2 ^ 256) →
+      (send s f u tok amt h).2.2 = .rejected ∧ (send s f u tok amt h).1 = s) := by
+  rcases send_cases s f u tok amt h with ⟨hr, h1⟩ | ⟨hr, usage', _, hov, hmax, _, _, _⟩
+  · exact ⟨fun hok => (by rw [hr] at hok; cases hok), fun _ => ⟨hr, h1⟩⟩
+  · refine ⟨fun _ => ⟨hov, hmax⟩, ?_⟩
+    intro hbad
+    rcases hbad with hb | hb
+    · rw [hov] at hb; cases hb
+    · have : maxInt = 2 ^ 256 := rfl
+      omega
 
-/-- **tax_burned_on_execution.** Executing a batch burns amount *plus* tax of each of its transfers. -/
-theorem tax_burned_on_execution (s : St) (f : Fault) (tok nonce eh : Nat) (b : Batch)
-    (hb : findBatch s.batches tok nonce = some b) (hok : (execBatch s f tok nonce eh).2.2 = .ok) :
-    (execBatch s f tok nonce eh).1.supply tok + ((b.txs.map (fun t => t.amount + t.tax)).sum) = s.supply tok := by
-  have hmap : (b.txs.map Tx.owed) = b.txs.map (fun t => t.amount + t.tax) := by
-    apply List.map_congr_left; intro t _; rfl
-  unfold execBatch at hok ⊢
-  simp only [hb] at hok ⊢
-  by_cases h1 : b.timeout ≤ eh
-  · simp [h1] at hok
-  · simp only [h1, if_false] at hok ⊢
-    by_cases h2 : (f.tick tBurn).2 = true
-    · simp [h2] at hok
-    · simp only [h2, if_false] at hok ⊢
-      by_cases h3 : (s.escrow tok < (b.txs.map Tx.owed).sum || s.supply tok < (b.txs.map Tx.owed).sum) = true
-      · simp [h3] at hok
-      · have h3' : (s.escrow tok < (b.txs.map Tx.owed).sum || s.supply tok < (b.txs.map Tx.owed).sum) = false := by
-          simpa using h3
-        simp only [Bool.or_eq_true, decide_eq_true_eq, not_or, Nat.not_lt] at h3
-        have h2' : (f.tick tBurn).2 = false := by simpa using h2
-        simp only [h3', h2', Bool.false_eq_true, if_false, upd_same, ← hmap]
-        omega
+/-- **tax_overflow_spec.** What `taxOverflows` means: the sender is taxed and `amount · num ≥ 2^256`. -/
+theorem tax_overflow_spec (c : TaxCfg) (sender a : Nat) :
+    taxOverflows (some c) sender a = true ↔ (c.num ≠ 0 ∧ sender ∉ c.exempt ∧ a * c.num ≥ 2 ^ 256) := by
+  simp only [taxOverflows, maxInt]
+  by_cases h1 : c.num = 0
+  · simp [h1]
+  · by_cases h2 : sender ∈ c.exempt
+    · simp [h1, h2]
+    · simp [h1, h2]
 
-/-- **limit_respected.** Whenever a send by a non-exempt sender is accepted under an active
-limit, the usage persisted for the running window is within the limit, and that usage is the
-sum of the window's accepted amounts (ghost log): a window's accepted transfers never total
-more than the limit. -/
-theorem limit_respected (l : LimitCfg) (usage : Option Usage) (sender amt h : Nat) (u' : Option Usage)
-    (hne : sender ∉ l.exempt) (hp : l.period ≠ 0)
-    (hstep : limitStep (some l) usage sender amt h = some u') :
-    ∃ nu, u' = some nu ∧ nu.total ≤ l.limit ∧
-      ((∃ u, usage = some u ∧ h - u.start < l.period ∧ nu.start = u.start ∧ nu.total = u.total + amt) ∨
-       (nu.start = h ∧ nu.total = amt)) := by
-  simp only [limitStep] at hstep
-  have h1 : l.exempt.contains sender = false := by simpa using hne
-  have h2 : (l.period == 0) = false := by simpa using hp
-  simp only [h1, h2, Bool.false_eq_true, if_false] at hstep
-  cases usage with
-  | none =>
-    simp only at hstep
-    by_cases hgt : amt > l.limit
-    · simp [hgt] at hstep
-    · simp only [hgt, if_false, Option.some.injEq] at hstep
-      exact ⟨_, hstep.symm, by simp; omega, Or.inr ⟨rfl, rfl⟩⟩
-  | some u =>
-    simp only at hstep
-    by_cases hr : h - u.start ≥ l.period
-    · simp only [hr, if_true] at hstep
-      by_cases hgt : amt > l.limit
-      · simp [hgt] at hstep
-      · simp only [hgt, if_false, Option.some.injEq] at hstep
-        exact ⟨_, hstep.symm, by simp; omega, Or.inr ⟨rfl, rfl⟩⟩
-    · simp only [hr, if_false] at hstep
-      by_cases hgt : u.total + amt > l.limit
-      · simp [hgt] at hstep
-      · simp only [hgt, if_false, Option.some.injEq] at hstep
-        exact ⟨_, hstep.symm, by simp; omega, Or.inl ⟨u, rfl, by omega, rfl, rfl⟩⟩
+/-- **recorded_tax_is_acceptance_tax** ("the tax is recorded with the transfer").  Every transfer the
+bridge knows — waiting in the pool, inside an open batch, refunded or burned — was accepted by a `send`
+op of the history that reported success, and the tax it carries is the tax computed *at that moment*
+from the setting then in force, whatever governance did to the rate or the exemptions afterwards. -/
+theorem recorded_tax_is_acceptance_tax (ops : List Op) (t : Tx)
+    (ht : t ∈ (run ops).pool ++ batched (run ops) ++ (run ops).refunded ++ (run ops).burned) :
+    ∃ pre f h rest, ops = pre ++ .send f t.sender t.token t.amount h :: rest ∧
+      (send (run pre) f t.sender t.token t.amount h).2.2 = .ok ∧
+      t.tax = taxOf ((run pre).tax t.token) t.sender t.amount := by
+  have hacc : t ∈ (run ops).accepted := (reachable_inv ops).life.mem_iff.mpr ht
+  obtain ⟨pre, f, h, rest, he, hok, ht'⟩ := accepted_provenance ops t hacc
+  refine ⟨pre, f, h, rest, he, hok, ?_⟩
+  have : t.tax = (newTx (run pre) t.sender t.token t.amount).tax := by rw [← ht']
+  exact this
 
-/-- **window_log_matches_usage.** Over every history, for a token whose limit setting did not
-change, the persisted usage total equals the sum of the amounts accepted in the current window. -/
-theorem window_log_matches_usage (s : St) (f : Fault) (u tok amt h : Nat)
-    (hinv : ∀ us, s.usage tok = some us → (s.winLog tok).sum = us.total)
-    (happ : limitApplies (s.limit tok) u = true)
+/-- **refund_in_full** ("returned in full on cancellation", over whole histories).  Every refunded
+transfer was accepted by an `ok` send at some point `preS` of the history and cancelled by an `ok`
+cancel of its own sender at a later point `preC`; that cancel raised the sender's balance by exactly
+`amount + tax`, the tax being the one charged at acceptance (`taxOf` under the setting in force at
+`preS`), and took the same sum out of the escrow. -/
+theorem refund_in_full (ops : List Op) (t : Tx) (ht : t ∈ (run ops).refunded) :
+    ∃ preS fS hS restS preC fC restC,
+      ops = preS ++ .send fS t.sender t.token t.amount hS :: restS ∧
+      (send (run preS) fS t.sender t.token t.amount hS).2.2 = .ok ∧
+      ops = preC ++ .cancel fC t.sender t.id :: restC ∧
+      (cancel (run preC) fC t.sender t.id).2.2 = .ok ∧
+      (run (preC ++ [.cancel fC t.sender t.id])).bal t.sender t.token =
+        (run preC).bal t.sender t.token + (t.amount + taxOf ((run preS).tax t.token) t.sender t.amount) ∧
+      (run (preC ++ [.cancel fC t.sender t.id])).escrow t.token + (t.amount + taxOf ((run preS).tax t.token) t.sender t.amount) =
+        (run preC).escrow t.token := by
+  obtain ⟨preS, fS, hS, restS, heS, hokS, htax⟩ :=
+    recorded_tax_is_acceptance_tax ops t (by simp [ht])
+  obtain ⟨preC, fC, restC, heC, hokC, _, hbal, hesc, hle⟩ := refunded_provenance ops t ht
+  refine ⟨preS, fS, hS, restS, preC, fC, restC, heS, hokS, heC, hokC, ?_, ?_⟩
+  · rw [hbal, upd2_same, htax]
+  · rw [hesc, upd_same, ← htax]; omega
+
+/-- **tax_burned_on_execution.** A successfully applied executed-batch claim lowers the token's supply
+(and the escrow) by the sum of amount *plus recorded tax* over the batch's transfers — and by
+`recorded_tax_is_acceptance_tax` every one of those taxes is the tax charged at acceptance. -/
+theorem tax_burned_on_execution (s : St) (f : Fault) (tok nonce eh : Nat)
+    (hok : (execBatch s f tok nonce eh).2.2 = .ok) :
+    ∃ b ∈ s.batches, b.token = tok ∧ b.nonce = nonce ∧
+      (execBatch s f tok nonce eh).1.supply tok + ((b.txs.map (fun t => t.amount + t.tax)).sum) = s.supply tok ∧
+      (execBatch s f tok nonce eh).1.escrow tok + ((b.txs.map (fun t => t.amount + t.tax)).sum) = s.escrow tok ∧
+      (execBatch s f tok nonce eh).1.burned = b.txs ++ s.burned := by
+  rcases execBatch_cases s f tok nonce eh with ⟨hr, _⟩ | ⟨_, b, hfind, _, he, hs, h1⟩
+  · rw [hr] at hok; cases hok
+  · have ⟨hm, hbt, hbn⟩ := findBatch_some hfind
+    have hmap : (b.txs.map Tx.owed) = b.txs.map (fun t => t.amount + t.tax) := by
+      apply List.map_congr_left; intro t _; rfl
+    rw [hmap] at he hs
+    refine ⟨b, hm, hbt, hbn, ?_, ?_, by rw [h1]; rfl⟩
+    · rw [h1]; simp only [execOk, hmap]; rw [← hbt, upd_same]; omega
+    · rw [h1]; simp only [execOk, hmap]; rw [← hbt, upd_same]; omega
+
+/-- **window_total_le_limit** (the limit clause, over whole histories).  Take any state `s` in which
+`tok` has an active limit `l`, and any continuation `w₁ ++ w₂` during which governance does not touch
+that setting; let `u` be the usage record stored after `w₁` — so `[u.start, u.start + period)` is one of
+the token's limit windows.  Then the accepted sends of non-exempt senders in the whole continuation
+whose block height lies in that window total at most the limit.  (`limitedSends` is computed from the
+ops and the results they reported, heights are the ops' own block heights, `hmono` says block heights do
+not decrease — SDK behaviour.)  Sends accepted before `s` are a different regime: choose `s` right after
+the limit was last set. -/
+theorem window_total_le_limit (s : St) (w₁ w₂ : List Op) (tok : Nat) (l : LimitCfg) (u : Usage)
+    (hl : s.limit tok = some l) (hp : l.period ≠ 0)
+    (hconst : ∀ op ∈ w₁ ++ w₂, isSetLimit tok op = false)
+    (hmono : (sendHeights tok w₂).Pairwise (· ≤ ·))
+    (hu : (w₁.foldl apply s).usage tok = some u) :
+    sumIn u.start l.period (limitedSends tok l s (w₁ ++ w₂)) ≤ l.limit := by
+  have h1 := winInv_foldl tok l hp w₁ s [] hl (fun o ho => hconst o (List.mem_append_left _ ho))
+    ⟨fun _ _ => (by simp [sumFrom_nil]), fun _ _ e he => (by cases he), fun h => absurd rfl h⟩
+  simp only [List.nil_append] at h1
+  obtain ⟨hk, hl1⟩ := h1
+  have hsplit : ∀ (a b : List Op) (s0 : St), limitedSends tok l s0 (a ++ b) =
+      limitedSends tok l s0 a ++ limitedSends tok l (a.foldl apply s0) b := by
+    intro a
+    induction a with
+    | nil => intro b s0; rfl
+    | cons x xs ih => intro b s0; simp only [List.cons_append, limitedSends, List.foldl_cons, ih, List.append_assoc]
+  rw [hsplit, sumIn_append, sumIn_eq_sumFrom _ _ _ (hk.below u hu)]
+  have hpast := hk.cur u hu
+  have hfut := window_future tok l hp w₂ (w₁.foldl apply s) u hl1 hu
+    (fun o ho => hconst o (List.mem_append_right _ ho)) hmono
+  rcases hfut with hz | hle
+  · rw [hz, Nat.add_zero]
+    by_cases hnil : limitedSends tok l s w₁ = []
+    · rw [hnil]; simp [sumFrom_nil]
+    · obtain ⟨u', hu', hle'⟩ := hk.some hnil
+      rw [hu] at hu'; injection hu' with hu'; subst hu'
+      omega
+  · omega
+
+/-- **window_total_le_limit_run.** The same over `run`: a history `pre`, then a continuation without a
+change of the token's limit setting. -/
+theorem window_total_le_limit_run (pre w₁ w₂ : List Op) (tok : Nat) (l : LimitCfg) (u : Usage)
+    (hl : (run pre).limit tok = some l) (hp : l.period ≠ 0)
+    (hconst : ∀ op ∈ w₁ ++ w₂, isSetLimit tok op = false)
+    (hmono : (sendHeights tok w₂).Pairwise (· ≤ ·))
+    (hu : (run (pre ++ w₁)).usage tok = some u) :
+    sumIn u.start l.period (limitedSends tok l (run pre) (w₁ ++ w₂)) ≤ l.limit :=
+  window_total_le_limit (run pre) w₁ w₂ tok l u hl hp hconst hmono (by rw [← run_append]; exact hu)
+
+/-- **usage_within_limit.** Whenever a limited send is accepted, the usage record it leaves is within
+the limit in force (single step, any state). -/
+theorem usage_within_limit (s : St) (f : Fault) (u tok amt h : Nat) (l : LimitCfg)
+    (hl : s.limit tok = some l) (hne : u ∉ l.exempt) (hp : l.period ≠ 0)
     (hok : (send s f u tok amt h).2.2 = .ok) :
-    ∃ us', (send s f u tok amt h).1.usage tok = some us' ∧
-      ((send s f u tok amt h).1.winLog tok).sum = us'.total := by
-  obtain ⟨usage', hl, _, _, _, hs'⟩ := send_ok_shape s f u tok amt h hok
-  rw [hs']
-  simp only [happ, if_true, updO]
-  cases hlim : s.limit tok with
-  | none => simp [limitApplies, hlim] at happ
-  | some l =>
-    simp only [limitApplies, hlim, Bool.and_eq_true, Bool.not_eq_true', bne_iff_ne, ne_eq] at happ
-    have hne : u ∉ l.exempt := by simpa using happ.1
-    rw [hlim] at hl
-    obtain ⟨nu, hnu, _, hcase⟩ := limit_respected l (s.usage tok) u amt h usage' hne happ.2 hl
-    subst hnu
-    refine ⟨nu, by simp, ?_⟩
-    rcases hcase with ⟨us, hus, hlt, _, htot⟩ | ⟨_, htot⟩
-    · have hro : rollsOver (some l) (s.usage tok) h = false := by
-        simp [rollsOver, hus]; omega
-      simp only [if_true, hro, Bool.false_eq_true, if_false, List.sum_cons]
-      rw [hinv us hus, htot]; omega
-    · -- a fresh window (`nu.start = h`, `nu.total = amt`)
-      by_cases hro : rollsOver (some l) (s.usage tok) h = true
-      · simp [hro, htot]
-      · -- not rolling over: a running window exists, so the step extended it
-        simp only [rollsOver] at hro
-        cases hus : s.usage tok with
-        | none => simp [hus] at hro
-        | some us =>
-          simp only [hus, decide_eq_true_eq, Nat.not_le] at hro
-          have h1 : l.exempt.contains u = false := by simpa using hne
-          have h2 : (l.period == 0) = false := by simpa using happ.2
-          have hnr : ¬ (h - us.start ≥ l.period) := by omega
-          simp only [limitStep, hus, h1, h2, Bool.false_eq_true, if_false, hnr] at hl
-          by_cases hgt : us.total + amt > l.limit
-          · simp [hgt] at hl
-          · simp only [hgt, if_false, Option.some.injEq] at hl
-            subst hl
-            have hro' : rollsOver (some l) (some us) h = false := by simp [rollsOver]; omega
-            simp only [if_true, hro', Bool.false_eq_true, if_false, List.sum_cons]
-            rw [hinv us hus]; omega
+    ∃ nu, (send s f u tok amt h).1.usage tok = some nu ∧ nu.total ≤ l.limit := by
+  have := (apply_lim s (.send f u tok amt h) tok l hl hp rfl).2
+  rcases this with ⟨hev, _⟩ | ⟨_, _, nu, _, hus, hle, _⟩
+  · simp [limEvents, hne, hok] at hev
+  · exact ⟨nu, hus, hle⟩
 
-/-- **rejected_consumes_nothing.** A rejected send leaves every piece of state, in particular
-the window usage, untouched. -/
+/-- **sliding_window_reading_is_false.** Under a *sliding* reading ("any `period` consecutive blocks")
+the limit clause does not hold, of the model and of the implementation alike: with limit 100 per 10
+blocks, 1@0, 99@9 and 100@10 are all accepted — 199 within the two consecutive blocks 9 and 10.  The
+windows are anchored at the stored `StartBlockHeight`, as `window_total_le_limit` states. -/
+theorem sliding_window_reading_is_false :
+    let ops : List Op := [.fund 1 1 1000, .setLimit 1 (some { period := 10, limit := 100, exempt := [] }),
+      .send Fault.none 1 1 1 0, .send Fault.none 1 1 99 9, .send Fault.none 1 1 100 10]
+    ((run ops).accepted.map (·.amount)) = [100, 99, 1] ∧ (run ops).usage 1 = some { start := 10, total := 100 } ∧
+    (run (ops.take 4)).usage 1 = some { start := 0, total := 100 } := by decide
+
+/-- **rejected_consumes_nothing.** A rejected send leaves every piece of state, in particular the window
+usage, untouched — whatever the reason (limit, overflow, balance, zero amount, injected fault). -/
 theorem rejected_consumes_nothing (s : St) (f : Fault) (u tok amt h : Nat)
-    (hr : (send s f u tok amt h).2.2 = .rejected) : (send s f u tok amt h).1.usage = s.usage := by
-  rw [(failed_op_is_noop s f).1 u tok amt h hr]
+    (hr : (send s f u tok amt h).2.2 ≠ .ok) : (send s f u tok amt h).1 = s :=
+  (failed_op_is_noop s f).1 u tok amt h hr
 
-/-- **exempt_unrestricted / no_limit_unrestricted.** The limit never rejects an exempt sender,
-a token without a limit setting, or a setting with period `NONE`, whatever the amount. -/
-theorem limit_never_rejects (lim : Option LimitCfg) (usage : Option Usage) (sender amt h : Nat)
-    (hfree : lim = none ∨ (∃ l, lim = some l ∧ (sender ∈ l.exempt ∨ l.period = 0))) :
-    limitStep lim usage sender amt h = some usage := by
-  rcases hfree with rfl | ⟨l, rfl, hl⟩
-  · rfl
-  · simp only [limitStep]
-    rcases hl with hl | hl
-    · simp [hl]
-    · split
-      · rfl
-      · simp [hl]
+/-- **limit_rejects_only_over_limit.** The limit refuses a send only when accepting it would push the
+window total above the limit: if the send is by a sender subject to the limit `l` and the new total
+(the amount alone when a new window starts, the running total plus the amount otherwise) is within the
+limit, the limit step lets it pass. -/
+theorem limit_rejects_only_over_limit (l : LimitCfg) (usage : Option Usage) (sender amt h : Nat)
+    (hrej : limitStep (some l) usage sender amt h = none) :
+    sender ∉ l.exempt ∧ l.period ≠ 0 ∧
+    ((∃ u, usage = some u ∧ h - u.start < l.period ∧ u.total + amt > l.limit) ∨
+     ((∀ u, usage = some u → h - u.start ≥ l.period) ∧ amt > l.limit)) := by
+  unfold limitStep at hrej
+  simp only at hrej
+  split at hrej
+  · cases hrej
+  · rename_i hex
+    split at hrej
+    · cases hrej
+    · rename_i hp
+      refine ⟨by simpa using hex, by simpa using hp, ?_⟩
+      cases usage with
+      | none =>
+        simp only at hrej
+        right
+        refine ⟨(by intro u hu; cases hu), ?_⟩
+        split at hrej
+        · assumption
+        · cases hrej
+      | some u =>
+        simp only at hrej
+        by_cases hr : h - u.start ≥ l.period
+        · right
+          refine ⟨(by intro u0 hu; cases hu; exact hr), ?_⟩
+          simp only [hr, if_true] at hrej
+          split at hrej
+          · assumption
+          · cases hrej
+        · left
+          simp only [hr, if_false] at hrej
+          refine ⟨u, rfl, by omega, ?_⟩
+          split at hrej
+          · assumption
+          · cases hrej
+
+/-- **unrestricted_send** ("exempt senders and tokens without a limit are unrestricted", lifted to
+`send`).  For a sender the limit does not apply to — no limit setting for the token, period `NONE`, or
+the sender on the exempt list — a send is accepted exactly when the tax computation does not overflow,
+amount plus tax is below 2^256, the amount is not zero, the balance suffices and no collaborator call
+fails: whatever the amount, the limit and the usage on record play no role, and the usage record is left
+as it was. -/
+theorem unrestricted_send (s : St) (f : Fault) (u tok amt h : Nat) (hfree : limitApplies (s.limit tok) u = false) :
+    ((send s f u tok amt h).2.2 = .ok ↔
+      (taxOverflows (s.tax tok) u amt = false ∧ amt + taxOf (s.tax tok) u amt < 2 ^ 256 ∧ amt ≠ 0 ∧
+       amt + taxOf (s.tax tok) u amt ≤ s.bal u tok ∧ (f.tick tLock).2 = false ∧
+       (((f.tick tLock).1).tick tChainInfo).2 = false)) ∧
+    (send s f u tok amt h).1.usage tok = s.usage tok := by
+  have hstep := limitStep_unrestricted (s.limit tok) (s.usage tok) u amt h hfree
+  constructor
+  · unfold send
+    rw [hstep]
+    simp only
+    have hm : maxInt = 2 ^ 256 := rfl
+    by_cases h1 : taxOverflows (s.tax tok) u amt = true
+    · simp [h1]
+    · by_cases h2 : amt + taxOf (s.tax tok) u amt ≥ maxInt
+      · have : ¬ amt + taxOf (s.tax tok) u amt < 2 ^ 256 := by omega
+        simp [h1, h2, this]
+      · by_cases h3 : (f.tick tLock).2 = true
+        · simp [h1, h2, h3]
+        · by_cases h4 : amt = 0
+          · subst h4; simp [h1, h3]; split <;> simp
+          · by_cases h5 : s.bal u tok < amt + taxOf (s.tax tok) u amt
+            · have : ¬ amt + taxOf (s.tax tok) u amt ≤ s.bal u tok := by omega
+              simp [h1, h2, h3, h4, h5, this]
+            · by_cases h6 : (((f.tick tLock).1).tick tChainInfo).2 = true
+              · simp [h1, h2, h3, h4, h5, h6]
+              · have a1 : amt + taxOf (s.tax tok) u amt < 2 ^ 256 := by omega
+                have a2 : amt + taxOf (s.tax tok) u amt ≤ s.bal u tok := by omega
+                simp [h1, h2, h3, h4, h5, h6, a1, a2]
+  · rcases send_cases s f u tok amt h with ⟨_, h1⟩ | ⟨_, usage', hl, _, _, _, _, h1⟩
+    · rw [h1]
+    · rw [hstep] at hl
+      injection hl with hl
+      rw [h1]
+      simp only [sendOk, updO_same]
+      exact hl.symm
+
+/-- **window_test_int.** The model's window test uses truncated subtraction of naturals; Go subtracts
+`int64` block heights.  Against a period `> 0` (the only case in which the test is evaluated) the two
+agree for *all* heights, also for a height below the window start. -/
+theorem window_test_int (h start period : Nat) (hp : period ≠ 0) :
+    (h - start ≥ period) ↔ ((h : Int) - (start : Int) ≥ (period : Int)) := by
+  omega
 
 /-! ### non-vacuity -/
 example : taxOf (some { num := 1, den := 3, exempt := [7] }) 1 100 = 33 ∧
@@ -244,5 +711,35 @@ example : limitStep (some { period := 10, limit := 100, exempt := [] }) (some { 
     = none := by decide
 example : limitStep (some { period := 10, limit := 100, exempt := [] }) (some { start := 5, total := 60 }) 1 41 15
     = some (some { start := 15, total := 41 }) := by decide
+
+/-- a history through `run`: limit 100 per 10 blocks, user 2 exempt; two windows, a rejected send in
+between, an exempt sender; then the tax rate changes and the first transfer is cancelled: the refund is
+the tax charged at acceptance -/
+def demo15 : List Op :=
+  [ .fund 1 1 1000, .fund 2 1 1000,
+    .setTax 1 (some { num := 1, den := 10, exempt := [] }),
+    .setLimit 1 (some { period := 10, limit := 100, exempt := [2] }),
+    .send Fault.none 1 1 60 5,      -- opens window [5,15): tax 6
+    .send Fault.none 1 1 41 14,     -- rejected: 101 > 100
+    .send Fault.none 1 1 40 14,     -- accepted: 100
+    .send Fault.none 2 1 500 14,    -- exempt sender: unrestricted
+    .send Fault.none 1 1 70 15,     -- new window [15,25)
+    .setTax 1 (some { num := 1, den := 2, exempt := [] }),
+    .cancel Fault.none 1 1 ]
+
+example : limitedSends 1 { period := 10, limit := 100, exempt := [2] } (run (demo15.take 4)) (demo15.drop 4)
+      = [(5, 60), (14, 40), (15, 70)] ∧
+    (run (demo15.take 8)).usage 1 = some { start := 5, total := 100 } ∧
+    sumIn 5 10 (limitedSends 1 { period := 10, limit := 100, exempt := [2] } (run (demo15.take 4)) (demo15.drop 4)) = 100 ∧
+    (run demo15).usage 1 = some { start := 15, total := 70 } ∧
+    ((run demo15).refunded.map (fun t => (t.id, t.amount, t.tax))) = [(1, 60, 6)] ∧
+    (run demo15).bal 1 1 = 1000 - 44 - 77 ∧ (run demo15).escrow 1 = 44 + 500 + 50 + 77 := by decide
+
+/-- the hypotheses of the window theorem are jointly satisfiable on that history: limit set in `pre`, the
+window `[5, 15)` is the one stored after `w₁`, a later send (height 15) follows in `w₂` -/
+example : sumIn 5 10 (limitedSends 1 { period := 10, limit := 100, exempt := [2] } (run (demo15.take 4)) (demo15.drop 4)) ≤ 100 :=
+  window_total_le_limit_run (demo15.take 4) ((demo15.drop 4).take 4) ((demo15.drop 4).drop 4) 1
+    { period := 10, limit := 100, exempt := [2] } { start := 5, total := 100 }
+    (by decide) (by decide) (by decide) (by decide) (by decide)
 
 end Paloma.Bridge
